@@ -564,6 +564,20 @@ class _Endpoint:
         return True
 
 
+_HANDLER = {}
+
+
+def ssh_handler_called(stack):
+    """does channel_authenticate_ssh of this stack run _ssh_message_handler on the login buffer? (read from the source:
+    the sync loop always did, the asyncio loop does since fix ad58f65)"""
+    if stack not in _HANDLER:
+        import inspect
+        from scrapli.channel import AsyncChannel, Channel
+        cls = Channel if stack == "sync" else AsyncChannel
+        _HANDLER[stack] = "_ssh_message_handler(" in inspect.getsource(cls.channel_authenticate_ssh)
+    return _HANDLER[stack]
+
+
 REAL_TRANSPORTS = [("system", "sync", "session"), ("telnet", "sync", "socket"), ("asynctelnet", "async", "stdin"),
                    ("paramiko", "sync", "session_channel"), ("asyncssh", "async", "stdin"),
                    ("ssh2", "sync", "session_channel")]
@@ -737,7 +751,7 @@ def build_case(label, a, kw, evs, exc, exc_text, items, sc):
     elif label == "channel_authenticate_telnet":
         opt = "(OpLoginTelnet %s %s)" % (coq_msg(P(arg("auth_username", 0, ""))), coq_msg(P(arg("auth_password", 1, ""))))
     elif label == "channel_authenticate_ssh":
-        opt = "(OpLoginSsh %s %s %s)" % (coq_bool(sc["stack"] == "sync"), coq_msg(P(arg("auth_password", 0, ""))),
+        opt = "(OpLoginSsh %s %s %s)" % (coq_bool(ssh_handler_called(sc["stack"])), coq_msg(P(arg("auth_password", 0, ""))),
                                          coq_msg(P(arg("auth_private_key_passphrase", 1, ""))))
     else:
         return None
@@ -842,7 +856,7 @@ def build_case(label, a, kw, evs, exc, exc_text, items, sc):
                     low = acc.lower()
                     if b"passphrase" in low and phc >= 2:
                         fl.add("phrase")
-                    elif b"password:" in low and pc >= 2 and not (b"denied" in low and sc["stack"] == "sync" and label == "channel_authenticate_ssh"):
+                    elif b"password:" in low and pc >= 2 and not (b"denied" in low and ssh_handler_called(sc["stack"]) and label == "channel_authenticate_ssh"):
                         fl.add("pass")
                     elif (b"login:" in low or b"username:" in low) and uc >= 2:
                         fl.add("user")
